@@ -26,6 +26,25 @@ func perms3(n int) [][]int {
 	return [][]int{{0, 1, 2}, {0, 2, 1}, {1, 0, 2}, {1, 2, 0}, {2, 0, 1}, {2, 1, 0}}
 }
 
+// reverseKids: the subtree with its own children in reverse order (only where all of them sit
+// directly below the subtree's root).
+func reverseKids(part string) (string, bool) {
+	ls := strings.Split(part, "\n")
+	if len(ls) < 3 {
+		return part, false
+	}
+	for _, l := range ls[1:] {
+		if !strings.HasPrefix(l, "2 ") {
+			return part, false
+		}
+	}
+	out := []string{ls[0]}
+	for i := len(ls) - 1; i >= 1; i-- {
+		out = append(out, ls[i])
+	}
+	return strings.Join(out, "\n"), true
+}
+
 // checkClasses: one sibling multiset; every re-ordering must be deep-equal to it in both
 // directions, DeepEqual must not touch its arguments, and a copy must be deep-equal.
 func checkClasses(parts []string) (sig, what string) {
@@ -38,11 +57,30 @@ func checkClasses(parts []string) (sig, what string) {
 	if ct, _ := deq(C, T); !ct {
 		return "copy-not-deep-equal:DeepCopy:classes", "a source is not DeepEqual to its deep copy:\n" + tt
 	}
+	var variants [][]string
 	for _, pm := range perms3(len(parts)) {
 		q := make([]string, len(parts))
 		for i, j := range pm {
 			q[i] = parts[j]
 		}
+		variants = append(variants, q)
+	}
+	// re-orderings one level down: the children of each sibling reversed (one sibling at a time, and all)
+	all := append([]string{}, parts...)
+	any := false
+	for i, p := range parts {
+		if r, ok := reverseKids(p); ok {
+			one := append([]string{}, parts...)
+			one[i] = r
+			variants = append(variants, one)
+			all[i] = r
+			any = true
+		}
+	}
+	if any {
+		variants = append(variants, all)
+	}
+	for _, q := range variants {
 		pt := classText(q)
 		P := buildText(pt)
 		ab, p1 := deq(T, P)
